@@ -108,7 +108,7 @@ def generate(tier, rng):
       for nb in nbs:
         i += 1
         yield {'kind': 'padded', 'bs': bs, 'nb': nb, 'aff': list(AFFS[i % 3]), 'ds': [[0, 0, s] for s in sizes],
-               'it': i % 2, 'kw': (i // 2) % 3}
+               'it': i % 5, 'kw': (i // 2) % 3}
   # -- longer random sequences, larger batch sizes
   for _ in range(nrand):
     bs = rng.choice([1, 2, 3, 4, 5, 7, 8, 16])
@@ -116,7 +116,7 @@ def generate(tier, rng):
     sizes = [rng.choice([0, 0, rng.randrange(0, bs + 1), bs, rng.randrange(bs, 3 * bs + 2), bs * rng.randrange(1, 4),
                          bs - 1 if bs > 1 else 0]) for _ in range(ln)]
     yield {'kind': 'padded', 'bs': bs, 'nb': rng.randrange(1, 6), 'aff': list(rng.choice(AFFS)),
-           'ds': [[0, 0, s] for s in sizes], 'it': rng.randrange(2), 'kw': rng.randrange(3)}
+           'ds': [[0, 0, s] for s in sizes], 'it': rng.randrange(5), 'kw': rng.randrange(3)}
   # -- malformed stream: one dataset with another preprocessor object / feature set
   for _ in range(nmis):
     bs = rng.choice([1, 2, 3, 4])
@@ -133,27 +133,28 @@ def generate(tier, rng):
     if rng.randrange(4) == 0:   # whole stream on other ids, still consistent among the rest
       ds[0][1] = 1
     kind = rng.choice(['padded', 'padded', 'shufbatch'])
-    c = {'kind': kind, 'bs': bs, 'aff': list(rng.choice(AFFS)), 'ds': ds, 'it': rng.randrange(2)}
+    c = {'kind': kind, 'bs': bs, 'aff': list(rng.choice(AFFS)), 'ds': ds, 'it': rng.randrange(5)}
     if kind == 'padded':
       c.update(nb=rng.randrange(1, 4), kw=rng.randrange(2))
     else:
-      c.update(B=rng.choice([1, 2, 3, 5, 50]), seed=rng.randrange(1 << 30))
+      c.update(B=rng.choice([1, 2, 3, 5, 50]), seed=rng.choice([0, rng.randrange(1 << 30)]), pos=rng.randrange(2))
     yield c
   # -- padded_batch_federated_data (clients in sorted id order)
   for _ in range(nrand // 5):
     bs = rng.choice([1, 2, 3, 4, 5])
     sizes = [rng.choice([0, 1, bs - 1, bs, bs + 1, 2 * bs, 2 * bs + 1]) for _ in range(rng.randrange(1, 6))]
     yield {'kind': 'pbfd', 'bs': bs, 'nb': rng.randrange(1, 4), 'aff': list(rng.choice(AFFS)), 'sizes': sizes,
-           'kw': rng.randrange(2)}
+           'kw': rng.randrange(3), 'idtype': rng.choice(['bytes', 'str'])}
   # -- buffered_shuffle: every buffer size 1..n+2
   for n in range(0, shuf_n + 1):
     for B in range(1, n + 3):
       for src in range(3):
-        yield {'kind': 'shuffle', 'n': n, 'B': B, 'seed': rng.randrange(1 << 30), 'src': src}
+        yield {'kind': 'shuffle', 'n': n, 'B': B, 'seed': rng.choice([0, 0, 1, 2 ** 32 - 1] + [rng.randrange(1 << 30)] * 6),
+               'src': src + 3 * ((n + B) % 2)}
   for _ in range(nsb // 3):
     n = rng.randrange(10, 60)
     yield {'kind': 'shuffle', 'n': n, 'B': rng.choice([1, 2, 3, n // 2, n - 1, n, n + 5]), 'seed': rng.randrange(1 << 30),
-           'src': rng.randrange(3)}
+           'src': rng.randrange(6)}
   for n, B in [(12, 3), (12, 4), (12, 12), (12, 30), (30, 5), (30, 29)]:
     yield {'kind': 'shuffle_seeds', 'n': n, 'B': B, 'seeds': [rng.randrange(1 << 30) for _ in range(6)]}
   # -- buffered_shuffle_batch_client_datasets
@@ -162,8 +163,8 @@ def generate(tier, rng):
     sizes = [rng.choice([0, 1, 2, bs, bs + 1, 2 * bs, 7]) for _ in range(rng.randrange(0, 6))]
     tot = sum(sizes)
     yield {'kind': 'shufbatch', 'bs': bs, 'B': rng.choice([1, 2, 3, max(1, tot // 2), max(1, tot - 1), max(1, tot), tot + 1, tot + 7]),
-           'seed': rng.randrange(1 << 30), 'aff': list(rng.choice(AFFS)), 'ds': [[0, 0, s] for s in sizes],
-           'it': rng.randrange(2)}
+           'seed': rng.choice([0, 1, 2 ** 32 - 1] + [rng.randrange(1 << 30)] * 5), 'aff': list(rng.choice(AFFS)),
+           'ds': [[0, 0, s] for s in sizes], 'it': rng.randrange(5), 'pos': rng.randrange(2)}
   # -- RepeatableIterator
   for base in range(9):
     for n in range(0, 5):
@@ -211,7 +212,7 @@ def generate(tier, rng):
     nc = rng.randrange(1, 9)
     sc.append({'kind': 'shufclients', 'nc': nc, 'B': rng.choice([1, 2, 3, nc, nc + 1, nc + 4]),
                'seed': rng.choice(EDGE + [rng.randrange(1 << 32), rng.randrange(1 << 30)]),
-               'epochs': rng.randrange(1, 4), 'impl': IMPLS[j % 3]})
+               'epochs': rng.randrange(1, 4), 'impl': IMPLS[j % 3], 'idtype': ['bytes', 'str'][j % 2]})
   for c in sc:
     yield c
 
@@ -224,9 +225,30 @@ def _rows(base, n):
   return g
 
 
+def _columns(g):
+  """The extra feature columns of a row with global number g (any integer array): float16, bool,
+  uint8 image, fixed-width bytes / unicode, datetime64, complex64, object."""
+  g = np.asarray(g, dtype=np.int64)
+  n = len(g)
+  obj = np.empty(n, dtype=object)
+  for j, t in enumerate(g.tolist()):
+    obj[j] = b'o%d' % t
+  return {
+      'h': (g % 2048).astype(np.float16),
+      'flag': (g % 2 == 1),
+      'img': ((g[:, None] * 3 + np.arange(3)[None, :]) % 251 + 1).astype(np.uint8).reshape(n, 3),
+      's4': np.array([b'r%d' % (t % 1000) for t in g.tolist()], dtype='S4').reshape(n),
+      'u3': np.array(['u%d' % (t % 100) for t in g.tolist()], dtype='U3').reshape(n),
+      'day': (g + 11000).astype('datetime64[D]'),
+      'cplx': (g + 2j).astype(np.complex64),
+      'obj': obj,
+  }
+
+
 def _examples(base, n, feat, flip):
   g = _rows(base, n)
   ex = {'x': g.astype(np.int32), 'v': np.stack([g * 10, g * 10 + 1], axis=1).astype(np.int64).reshape(n, 2)}
+  ex.update(_columns(g))
   if feat == 1:
     ex['y'] = g.astype(np.float32)
   if feat == 2:
@@ -270,7 +292,7 @@ def _fd_impl(data, impl):
   if impl == 'subset':
     from fedjax.core import federated_data as fdm
     extra = dict(data)
-    extra[b'~not-in-subset'] = _examples(10 ** 6, 2, 0, False)
+    extra['~not-in-subset' if any(isinstance(k, str) for k in data) else b'~not-in-subset'] = _examples(10 ** 6, 2, 0, False)
     return fdm.SubsetFederatedData(fedjax.InMemoryFederatedData(extra), sorted(data)), lambda: None
   if impl == 'sqlite':
     import os
@@ -279,8 +301,11 @@ def _fd_impl(data, impl):
     from fedjax.core import sqlite_federated_data as sq
     d = tempfile.mkdtemp(prefix='verif_c15_')
     path = os.path.join(d, 'fd.sqlite')
+    # fedjax's msgpack serialization does not round-trip fixed-width 'S' / 'U' arrays (dtype names
+    # 'bytes32' / 'str96' are not parseable; serialization is C16's subject): not stored in SQLite
+    strip = lambda ex: {k: v for k, v in ex.items() if k not in ('s4', 'u3')}
     with sq.SQLiteFederatedDataBuilder(path) as b:
-      b.add_many([(cid, data[cid]) for cid in sorted(data)])
+      b.add_many([(cid, strip(data[cid])) for cid in sorted(data)])
     return sq.SQLiteFederatedData.new(path), lambda: shutil.rmtree(d, ignore_errors=True)
   return fedjax.InMemoryFederatedData(data), lambda: None
 
@@ -299,8 +324,37 @@ def _repeat_base(kind, n):
           lambda: map(lambda k: k, range(n))][kind]()
 
 
-def _iterable(dsl, how):
-  return dsl if how == 0 else (d for d in dsl)
+def _iterable(dsl, how, cnt=None):
+  """Argument delivery forms: 0 list, 1 generator, 2 tuple, 3 iter(list), 4 map object.  The one-shot
+  forms 1 and 4 count how many elements were pulled."""
+  cnt = cnt if cnt is not None else [0]
+
+  def gen():
+    for d in dsl:
+      cnt[0] += 1
+      yield d
+
+  def tick(d):
+    cnt[0] += 1
+    return d
+  return [lambda: list(dsl), gen, lambda: tuple(dsl), lambda: iter(list(dsl)), lambda: map(tick, dsl)][how]()
+
+
+def _snap_datasets(dsl):
+  return [[(k, v.copy()) for k, v in d.raw_examples.items()] for d in dsl]
+
+
+def _datasets_unchanged(dsl, snap):
+  if len(dsl) != len(snap):
+    return False
+  for d, sn in zip(dsl, snap):
+    if list(d.raw_examples) != [k for k, _ in sn]:
+      return False
+    for k, v in sn:
+      cur = d.raw_examples[k]
+      if cur.dtype != v.dtype or cur.shape != v.shape or not np.array_equal(cur, v):
+        return False
+  return True
 
 
 def _drain(gen, conv):
@@ -316,43 +370,112 @@ def _drain(gen, conv):
 
 
 def _v_follows(b, aff, mask):
-  """The untouched 2-d feature follows its row; padded rows are zero; dtypes kept."""
+  """Every feature column follows its row (identified by x); padded rows hold the zero value of the
+  column's dtype (0, False, b'', '', the epoch, 0j; 0 / b'' / None for object); dtypes and trailing
+  shapes are kept."""
   a, c = aff
   x = np.asarray(b['x'])
-  if 'v' not in b:
-    return True
-  v = np.asarray(b['v'])
-  if x.dtype != np.int32 or v.dtype != np.int64 or v.shape != (len(x), 2):
+  n = len(x)
+  if x.dtype != np.int32:
     return False
-  real = np.ones(len(x), bool) if mask is None else np.asarray(mask, bool)
+  real = np.ones(n, bool) if mask is None else np.asarray(mask, bool)
+  if real.shape != (n,):
+    return False
+  if mask is not None and np.asarray(b[M]).dtype != np.bool_:
+    return False
   g = (x.astype(np.int64) - c) // a
-  ok = np.array_equal(v[real], np.stack([g * 10, g * 10 + 1], axis=1)[real])
-  if mask is not None:
-    ok = ok and not np.any(v[~real]) and (np.asarray(b[M]).dtype == np.bool_)
-  return bool(ok)
+  g = np.where(real, g, 0)
+  exp = _columns(g)
+  if 'v' in b:
+    exp['v'] = np.stack([g * 10, g * 10 + 1], axis=1)
+  if 'w' in b:
+    exp['w'] = np.stack([g * 10, g * 10 + 1], axis=1)
+  if 'y' in b:
+    exp['y'] = g.astype(np.float32)
+  want_dt = {'v': np.int64, 'w': np.int64, 'y': np.float32, 'h': np.float16, 'flag': np.bool_, 'img': np.uint8,
+             's4': np.dtype('S4'), 'u3': np.dtype('U3'), 'day': np.dtype('datetime64[D]'), 'cplx': np.complex64,
+             'obj': np.dtype(object)}
+  for k in ('s4', 'u3'):        # absent from SQLite-backed datasets
+    if k not in b:
+      del exp[k]
+  if set(b) - {M, 'x'} != set(exp):
+    return False
+  for k, e in exp.items():
+    col = np.asarray(b[k])
+    if col.dtype != want_dt[k] or col.shape != np.asarray(e).shape:
+      return False
+    if k == 'obj':
+      for j in range(n):
+        if real[j] and col[j] != e[j]:
+          return False
+        if not real[j] and col[j] not in (0, b'', None):
+          return False
+      continue
+    if not np.array_equal(col[real], np.asarray(e)[real]):
+      return False
+    pad = col[~real]
+    zero = np.zeros(pad.shape, col.dtype)
+    if pad.size and not np.array_equal(pad, zero):
+      return False
+  return True
 
 
-def _run_padded(case, datasets):
+def _padded_gen(case, datasets):
   import fedjax
   bs, nb = case['bs'], case['nb']
+  if case.get('kw') == 2:    # keyword arguments override an existing hparams object
+    return fedjax.padded_batch_client_datasets(
+        datasets, fedjax.PaddedBatchHParams(batch_size=bs + 3, num_batch_size_buckets=nb + 1), batch_size=bs,
+        num_batch_size_buckets=nb)
+  if case.get('kw'):
+    return fedjax.padded_batch_client_datasets(datasets, batch_size=bs, num_batch_size_buckets=nb)
+  return fedjax.padded_batch_client_datasets(datasets, fedjax.PaddedBatchHParams(batch_size=bs, num_batch_size_buckets=nb))
+
+
+def _run_padded(case, dsl):
+  """dsl: the list of ClientDataset objects (delivered in the form case['it'])."""
   feat_ok = [True]
+  kept = []
 
   def conv(b):
+    kept.append((b, {k: np.array(v, copy=True) for k, v in b.items()}))
     if M not in b:
       feat_ok[0] = False
       return [np.asarray(b['x']).tolist(), []]
     feat_ok[0] &= _v_follows(b, case['aff'], b[M])
     return [np.asarray(b['x']).tolist(), [bool(t) for t in np.asarray(b[M]).tolist()]]
-  if case.get('kw') == 2:    # keyword arguments override an existing hparams object
-    gen = fedjax.padded_batch_client_datasets(
-        datasets, fedjax.PaddedBatchHParams(batch_size=bs + 3, num_batch_size_buckets=nb + 1), batch_size=bs,
-        num_batch_size_buckets=nb)
-  elif case.get('kw'):
-    gen = fedjax.padded_batch_client_datasets(datasets, batch_size=bs, num_batch_size_buckets=nb)
-  else:
-    gen = fedjax.padded_batch_client_datasets(datasets, fedjax.PaddedBatchHParams(batch_size=bs, num_batch_size_buckets=nb))
-  batches, err = _drain(gen, conv)
-  return {'batches': batches, 'err': err, 'feat_ok': feat_ok[0]}
+
+  def plain(b):
+    return [np.asarray(b['x']).tolist(), [bool(t) for t in np.asarray(b.get(M, [])).tolist()]]
+  snap = _snap_datasets(dsl)
+  cnt = [0]
+  batches, err = _drain(_padded_gen(case, _iterable(dsl, case.get('it', 0), cnt)), conv)
+  # object reuse: the same dataset objects again, first with another batch size, then as before
+  _drain(_padded_gen({**case, 'bs': case['bs'] + 1, 'kw': 1}, list(dsl)), plain)
+  again = _drain(_padded_gen(case, list(dsl)), plain)
+  # two live generators over the same datasets, advanced alternately
+  g1, g2 = _padded_gen(case, list(dsl)), _padded_gen(case, (d for d in dsl))
+  o1, o2, e1, e2 = [], [], None, None
+  live = [True, True]
+  while any(live):
+    for j, (g, o) in enumerate(((g1, o1), (g2, o2))):
+      if not live[j]:
+        continue
+      try:
+        o.append(plain(next(g)))
+      except StopIteration:
+        live[j] = False
+      except Exception as ex:  # pylint: disable=broad-except
+        live[j] = False
+        if j == 0:
+          e1 = 'ValueError' if isinstance(ex, ValueError) else type(ex).__name__
+        else:
+          e2 = 'ValueError' if isinstance(ex, ValueError) else type(ex).__name__
+  kept_ok = all(set(b) == set(sn) and all(np.array_equal(np.asarray(b[k]), sn[k]) for k in sn) for b, sn in kept)
+  pulled = cnt[0] if case.get('it', 0) in (1, 4) else None
+  return {'batches': batches, 'err': err, 'feat_ok': feat_ok[0], 'again': again == (batches, err),
+          'interleaved': (o1, e1) == (batches, err) and (o2, e2) == (batches, err), 'kept_ok': bool(kept_ok),
+          'inputs_ok': _datasets_unchanged(dsl, snap), 'pulled': pulled}
 
 
 def run(case):
@@ -361,9 +484,11 @@ def run(case):
   from fedjax.core import federated_data as fdm
   kind = case['kind']
   if kind == 'padded':
-    return _run_padded(case, _iterable(_datasets(case), case['it']))
+    return _run_padded(case, _datasets(case))
   if kind == 'pbfd':
     ids = [b'c%02d' % j + (b'\x00' * (j % 3)) for j in range(len(case['sizes']))]
+    if case.get('idtype') == 'str':
+      ids = [i.decode('latin1') for i in ids]
     order = sorted(range(len(ids)), key=lambda j: ids[j])
     base, data = 0, {}
     for j in order:   # rows numbered in sorted-id order = the order clients() visits
@@ -378,7 +503,11 @@ def run(case):
     def conv(bt):
       feat_ok[0] &= M in bt and _v_follows(bt, case['aff'], bt.get(M))
       return [np.asarray(bt['x']).tolist(), [bool(t) for t in np.asarray(bt.get(M, [])).tolist()]]
-    if case['kw']:
+    if case['kw'] == 2:
+      gen = fedjax.padded_batch_federated_data(
+          fd, fedjax.PaddedBatchHParams(batch_size=case['bs'] + 2, num_batch_size_buckets=case['nb'] + 2),
+          batch_size=case['bs'], num_batch_size_buckets=case['nb'])
+    elif case['kw']:
       gen = fedjax.padded_batch_federated_data(fd, batch_size=case['bs'], num_batch_size_buckets=case['nb'])
     else:
       gen = fedjax.padded_batch_federated_data(
@@ -388,7 +517,8 @@ def run(case):
   if kind == 'shuffle':
     def source():
       n = case['n']
-      return [range(n), list(range(n)), (k for k in range(n))][case['src']]
+      return [lambda: range(n), lambda: list(range(n)), lambda: (k for k in range(n)), lambda: tuple(range(n)),
+              lambda: iter(list(range(n))), lambda: {k: None for k in range(n)}.keys()][case['src']]()
     rng = RecRng(case['seed'])
     out, err = _drain(cd.buffered_shuffle(source(), case['B'], rng), int)
     rng2 = np.random.RandomState(case['seed'])
@@ -406,16 +536,24 @@ def run(case):
     def conv(b):
       feat_ok[0] &= _v_follows(b, case['aff'], None) and M not in b
       return np.asarray(b['x']).tolist()
+    dsl = _datasets(case)
+    snap = _snap_datasets(dsl)
+    cnt = [0]
     rng = RecRng(case['seed'])
-    batches, err = _drain(cd.buffered_shuffle_batch_client_datasets(
-        _iterable(_datasets(case), case['it']), batch_size=case['bs'], buffer_size=case['B'], rng=rng), conv)
+    if case.get('pos'):
+      gen = fedjax.buffered_shuffle_batch_client_datasets(_iterable(dsl, case['it'], cnt), case['bs'], case['B'], rng)
+    else:
+      gen = cd.buffered_shuffle_batch_client_datasets(
+          _iterable(dsl, case['it'], cnt), batch_size=case['bs'], buffer_size=case['B'], rng=rng)
+    batches, err = _drain(gen, conv)
     b2, _ = _drain(cd.buffered_shuffle_batch_client_datasets(
-        _datasets(case), batch_size=case['bs'], buffer_size=case['B'], rng=np.random.RandomState(case['seed'])), conv)
+        dsl, batch_size=case['bs'], buffer_size=case['B'], rng=np.random.RandomState(case['seed'])), conv)
     return {'batches': batches, 'err': err, 'codes': rng.codes, 'draws': rng.draws, 'contract': rng.contract,
-            'same': batches == b2, 'feat_ok': feat_ok[0]}
+            'same': batches == b2, 'feat_ok': feat_ok[0], 'inputs_ok': _datasets_unchanged(dsl, snap),
+            'pulled': cnt[0] if case['it'] in (1, 4) and err is None else None}
   if kind == 'repeat_ops':
     n = case['n']
-    it = fdm.RepeatableIterator(_repeat_base(case['base'], n))
+    it = fedjax.RepeatableIterator(_repeat_base(case['base'], n))
     conv = lambda v: ord(v) - 48 if isinstance(v, str) else int(v)
     parts, prim, trace, iter_ok = [], [], [], True
     for op in case['ops']:
@@ -503,6 +641,8 @@ def run(case):
                 'codes': rec.codes, 'draws': rec.draws, 'contract': rec.contract}
       nc = case['nc']
       data = {b'id%02d' % j + b'\x00' * (j % 2): _examples(100 * j, 1 + j % 3, 0, False) for j in range(nc)}
+      if case.get('idtype') == 'str' and case.get('impl', 'mem') != 'sqlite':
+        data = {k.decode('latin1'): v for k, v in data.items()}
       fd, cleanup = _fd_impl(data, case.get('impl', 'mem'))
       ids = sorted(data)
 
@@ -514,6 +654,14 @@ def run(case):
         return out
       o1 = take(case['seed'], 1)
       same = o1 == take(case['seed'], 2)
+      # two live streams with the same seed, advanced alternately
+      s1, s2 = fd.shuffled_clients(case['B'], case['seed']), fd.shuffled_clients(case['B'], case['seed'])
+      i1, i2 = [], []
+      for _ in range(nc * case['epochs']):
+        for st, acc in ((s1, i1), (s2, i2)):
+          cid, ds = next(st)
+          acc.append([ids.index(cid) if cid in ids else -1, int(np.asarray(ds.raw_examples['x'])[0]) // 100])
+      same = same and i1 == o1 and i2 == o1
       # the oracle of every pass, recomputed independently: NumPy's answers for RandomState(seed)
       # when one buffered_shuffle per pass is run over the clients
       rec, oracles = RecRng(case['seed']), []
@@ -546,13 +694,28 @@ def _minimal_bucket(real, bs, nb):
   return min(c for c in cands if c >= rem)
 
 
-def _oracle_padded(sizes, consistent, bs, nb, aff, obs, tag):
+def _reuse_violations(obs, tag, expect_pulled):
+  out = []
+  if not obs.get('again', True):
+    out.append((tag + 'reiterate', 'the same dataset objects batched again (after a call with other hyper-parameters) gave different batches'))
+  if not obs.get('interleaved', True):
+    out.append((tag + 'interleave', 'two generators over the same datasets advanced alternately differ from a single one'))
+  if not obs.get('kept_ok', True):
+    out.append((tag + 'kept-changed', 'a batch kept by the caller changed while later batches were produced'))
+  if not obs.get('inputs_ok', True):
+    out.append((tag + 'input-mutated', 'the call changed the client datasets (arrays or feature dict)'))
+  if obs.get('pulled') is not None and expect_pulled is not None and obs['pulled'] != expect_pulled:
+    out.append((tag + 'consumption', f'{obs["pulled"]} datasets pulled from the one-shot iterable, {expect_pulled} expected'))
+  return out
+
+
+def _oracle_padded(sizes, consistent, bs, nb, aff, obs, tag, first_bad=None):
   out = []
   a, b = aff
   if not consistent:
     if obs['err'] != 'ValueError':
       out.append((tag + 'mismatch-not-rejected', f'mismatching preprocessor / features not rejected with ValueError (got {obs["err"]})'))
-    return out
+    return out + _reuse_violations(obs, tag, None if first_bad is None else first_bad + 1)
   if obs['err'] is not None:
     out.append((tag + 'unexpected-error', f'consistent datasets raised {obs["err"]}'))
     return out
@@ -582,7 +745,8 @@ def _oracle_padded(sizes, consistent, bs, nb, aff, obs, tag):
     if len(x) != _minimal_bucket(sum(m), bs, nb):
       out.append((tag + 'final-size', f'final batch has {len(x)} rows for {sum(m)} real rows; bucket rule gives {_minimal_bucket(sum(m), bs, nb)}'))
   if not obs['feat_ok']:
-    out.append((tag + 'features', 'a feature does not follow its row, changed dtype/shape, or a padded row is not zero'))
+    out.append((tag + 'features', 'a feature does not follow its row, changed dtype/shape, or a padded row is not the zero value of its dtype'))
+  out += _reuse_violations(obs, tag, len(sizes))
   return out
 
 
@@ -590,7 +754,9 @@ def oracle(case, obs):
   kind = case['kind']
   out = []
   if kind == 'padded':
-    return _oracle_padded([d[2] for d in case['ds']], _consistent(case['ds']), case['bs'], case['nb'], case['aff'], obs, 'padded-')
+    ds = case['ds']
+    bad = next((j for j, d in enumerate(ds) if d[0] != ds[0][0] or d[1] != ds[0][1]), None)
+    return _oracle_padded([d[2] for d in ds], _consistent(ds), case['bs'], case['nb'], case['aff'], obs, 'padded-', bad)
   if kind == 'pbfd':
     return _oracle_padded(case['sizes'], True, case['bs'], case['nb'], case['aff'], obs, 'fd-padded-')
   if kind == 'shuffle':
@@ -634,7 +800,7 @@ def oracle(case, obs):
       out.append(('numpy-contract', 'recorded shuffle / randint violated the assumed NumPy contract'))
     if not obs['feat_ok']:
       out.append(('shufbatch-features', 'a feature does not follow its row or a mask appeared'))
-    return out
+    return out + _reuse_violations(obs, 'shufbatch-', len(ds))
   if kind == 'repeat_ops':
     n = case['n']
     cyc = list(range(n)) + [None]
